@@ -49,9 +49,14 @@ type StoreCase struct {
 	Runs     []StoreRun `json:"runs"`
 	BaseGets []Res      `json:"baseGets"` // Get of every key by a transaction without pending writes
 	BaseIter []int      `json:"baseIter"` // plain forward iteration of such a transaction
+	// optional: after the placement set the discard timestamp (managed mode) and run these
+	// environment steps (compactions); the predictions must still hold (C01/C33: reads do
+	// not change under compaction whatever the layout)
+	DiscardTs uint64   `json:"discardTs"`
+	Post      []string `json:"post"`
 }
 
-var srcNames = []string{"mt", "imm", "l0a", "l0b", "l1", "l2"}
+var srcNames = []string{"mt", "imm", "l0a", "l0b", "l1", "l2", "l3"}
 
 func (r *runner) ventry(e SEntry) badger.VerifEntry {
 	ve := badger.VerifEntry{Key: r.key(e.K), Version: e.Ts, UserMeta: byte(e.Um), ExpiresAt: r.realExp(e.Exp)}
@@ -201,7 +206,7 @@ func (r *runner) place(sc *StoreCase, pl []int, variant int) (release func(), m 
 	for _, lv := range []struct {
 		name  string
 		level int
-	}{{"l2", 2}, {"l1", 1}, {"l0a", 0}, {"l0b", 0}} {
+	}{{"l3", 3}, {"l2", 2}, {"l1", 1}, {"l0a", 0}, {"l0b", 0}} {
 		if err := r.injectLevel(lv.level, by[lv.name]); err != nil {
 			return release, &mismatch{"place.inject.error", err.Error()}
 		}
@@ -394,6 +399,15 @@ func (r *runner) runStoreVariant(sc *StoreCase, v int) (m *mismatch) {
 	release, pm = r.place(sc, sc.Pl[v], v)
 	if pm != nil {
 		return pm
+	}
+	if sc.DiscardTs > 0 && r.c.managed {
+		r.db.SetDiscardTs(sc.DiscardTs)
+	}
+	for _, step := range sc.Post {
+		if m := r.env(step); m != nil {
+			m.Detail = map[string]interface{}{"err": m.Detail}
+			return m
+		}
 	}
 	begin := func(upd bool) (*badger.Txn, *mismatch) {
 		if r.c.managed {
